@@ -161,7 +161,17 @@ fn cluster_case(run: &mut Runner, kind: &str, case: String, points: Vec<SpacePoi
     let (ids, table) = value_ids(&points);
     let base = obj(vec![("fam", json!("cluster")), ("kind", json!(kind)), ("case", json!(case)), ("n", json!(points.len())), ("input", json!(ids))]);
     run.case(base, move || {
+        // the same input once more on another thread and once more here: clusters (as ordered lists of ordered
+        // point lists) and remainder must come out identical every time (C11)
+        let canon = |r: &alpha_g_physics::reconstruction::ClusteringResult| -> (Vec<Vec<(u64, u64, u64)>>, Vec<(u64, u64, u64)>) {
+            (r.clusters.iter().map(|c| c.iter().map(|p| key(p)).collect()).collect(), r.remainder.iter().map(key).collect())
+        };
+        let p2 = points.clone();
+        let p3 = points.clone();
+        let other = std::thread::spawn(move || { let r = cluster_spacepoints(p2); canon(&r) }).join();
+        let again = canon(&cluster_spacepoints(p3));
         let res = cluster_spacepoints(points);
+        let repeat = matches!(&other, Ok(o) if *o == canon(&res)) && again == canon(&res);
         let id_of = |p: &SpacePoint| table.get(&key(p)).copied().unwrap_or(0);
         let clusters: Vec<Value> = res
             .clusters
@@ -175,6 +185,7 @@ fn cluster_case(run: &mut Runner, kind: &str, case: String, points: Vec<SpacePoi
         m.insert("verdict".into(), json!("ok"));
         m.insert("clusters".into(), Value::Array(clusters));
         m.insert("remainder".into(), json!(res.remainder.iter().map(id_of).collect::<Vec<_>>()));
+        m.insert("repeat".into(), json!(repeat as u8));
         m
     });
 }
